@@ -620,12 +620,21 @@ fn real_compiler_runs(ctx: &Ctx, batch: &[Case], first: &[String]) -> Result<usi
     let _ = std::fs::copy(ctx.mirror.join("Cargo.lock"), dir.join("Cargo.lock"));
     let mut src = String::from("#![allow(warnings)]\n");
     let mut n = 0;
+    let mut n_other = 0;
     for (i, c) in batch.iter().enumerate() {
         // only derives that need no user-provided trait impls to *expand* (expansion happens before type-check; errors later do not matter for -Zunpretty=expanded)
-        if first[i].starts_with('<') || c.hashed_keys < 3 || n >= 300 {
+        // 300 cases with hashed collections at work, plus 250 of the attribute-carrying classes (several where-predicates,
+        // canonical attribute forms, explicit From variants)
+        let hashed = c.hashed_keys >= 3;
+        let other = matches!(c.class, "fmt-attribute-with-several-bounded-types" | "canonical-attribute-forms" | "from-enum-explicit-variants" | "attributed-item");
+        if first[i].starts_with('<') || !(hashed && n < 300 || !hashed && other && n_other < 250) {
             continue;
         }
-        n += 1;
+        if hashed {
+            n += 1;
+        } else {
+            n_other += 1;
+        }
         src.push_str(&format!("mod c{i} {{ #[derive(derive_more::{})] {} }}\n", c.derive, c.item));
     }
     std::fs::write(dir.join("src/lib.rs"), &src).map_err(|e| e.to_string())?;
